@@ -222,7 +222,68 @@ func TestVerifLogFilter(t *testing.T) {
 	for c := 0; c < nreal; c++ {
 		queries += runFilterChain(t, w, rand.New(rand.NewSource(seed*1000+500+int64(c))), nchains+c, nq/2, true)
 	}
+	runCodec(w, rand.New(rand.NewSource(seed*77+1)))
 	fmt.Printf("VERIF-STAT chains=%d queries=%d events=%d\n", nchains, queries, w.n)
+}
+
+// the compression every index section passes through: all vectors of up to 5 bytes over a boundary alphabet (the specification
+// computes their encoding), and section-sized vectors (256 and 512 bytes) with every interesting number of non-zero bytes -
+// among them the densities at which the encoding is exactly as long as the vector
+func runCodec(w *fvw, rng *rand.Rand) {
+	ints := func(b []byte) []int {
+		out := make([]int, len(b))
+		for i, x := range b {
+			out[i] = int(x)
+		}
+		return out
+	}
+	probe := func(data []byte, small bool) {
+		enc := bitutil.CompressBytes(data)
+		dec, err := bitutil.DecompressBytes(enc, len(data))
+		same := err == nil && len(dec) == len(data)
+		for i := 0; same && i < len(data); i++ {
+			same = dec[i] == data[i]
+		}
+		ev := map[string]interface{}{"e": "codec", "n": len(data), "small": small, "encLen": len(enc), "decOk": err == nil, "same": same, "data": []int{}, "enc": []int{}, "dec": []int{}}
+		if small {
+			ev["data"], ev["enc"], ev["dec"] = ints(data), ints(enc), ints(dec)
+		}
+		w.emit(ev)
+	}
+	alpha := []byte{0, 1, 128, 255}
+	var rec func(cur []byte)
+	rec = func(cur []byte) {
+		probe(cur, true)
+		if len(cur) == 5 {
+			return
+		}
+		for _, a := range alpha {
+			rec(append(append([]byte{}, cur...), a))
+		}
+	}
+	rec(nil)
+	for _, n := range []int{8, 9, 64, 256, 512} {
+		for k := 0; k <= n; k++ {
+			if n >= 256 && k > 3 && k < n-3 && k%16 != 0 && (k < n*7/8-4 || k > n*7/8+4) {
+				continue
+			}
+			// k non-zero bytes: at the front, at the back, and scattered
+			for layout := 0; layout < 3; layout++ {
+				data := make([]byte, n)
+				pos := rng.Perm(n)
+				for j := 0; j < k; j++ {
+					i := j
+					if layout == 1 {
+						i = n - 1 - j
+					} else if layout == 2 {
+						i = pos[j]
+					}
+					data[i] = byte(1 + rng.Intn(255))
+				}
+				probe(data, false)
+			}
+		}
+	}
 }
 
 func runFilterChain(t *testing.T, w *fvw, rng *rand.Rand, cidx, nq int, realIndexer bool) int {
